@@ -5,4 +5,4 @@ From Fibre Require Import Common.Base Chan.MpscB.
 
 Extraction Language OCaml.
 Set Extraction KeepSingleton.
-Extraction "model_mpscb.ml" init step.
+Extraction "model_mpscb.ml" init step chan_len.
